@@ -66,7 +66,7 @@ def reweight_cases(rng, n, ctx):
         container = str(rng.choice(['single', 'single', 'list', 'corr', 'method']))
         if container == 'method':
             allc = False          # Obs.reweight has no normalisation argument
-        bad = str(rng.choice(['none'] * 6 + ['extra_cfg', 'other_chain', 'covobs', 'two_ens']))
+        bad = str(rng.choice(['none'] * 6 + ['extra_cfg', 'other_chain', 'covobs', 'covobs_w', 'two_ens']))
         olist = [_obs_on(rng, lay, reps, kind) for _ in range(1 if container in ('single', 'method') else int(rng.integers(2, 4)))]
         if bad == 'extra_cfg':
             name, idl = lay[reps[0]]
@@ -87,6 +87,8 @@ def reweight_cases(rng, n, ctx):
             olist[0] = pe.Obs([rng.normal(size=9)], ['W|zz'])
         elif bad == 'covobs':
             olist[0] = olist[0] + pe.cov_Obs(0.3, 0.01, 'sysW')
+        elif bad == 'covobs_w':
+            w = w + pe.cov_Obs(0.3, 0.01, 'sysW')            # the covariance input sits in the weight
         elif bad == 'two_ens':
             olist[0] = olist[0] + pe.Obs([rng.normal(size=9)], ['V|r1'])
         kw = {'all_configs': True} if allc else {}
@@ -202,6 +204,10 @@ def merge_cases(rng, n, ctx):
         out = _call(lambda: pe.merge_obs(obs))
         cases.append(frame_event('mg-%04d-frame' % i, 'merge_obs leaves the list and the observables it was given as they were', before, obs))
         cases.append({'id': 'mg-%04d-%s' % (i, bad), 'ev': 'merge', 'list': [project_obs(o) for o in obs], 'res': _res(out)})
+        if not isinstance(out, Exception):
+            # what is derived from a merged observable inherits the flag of its parts (and only that)
+            d = _call(lambda: np.cos(out) * 0.5 + 1.0)
+            cases.append({'id': 'mg-%04d-%s-inh' % (i, bad), 'ev': 'inherit', 'expect': any(bool(o.reweighted) for o in obs), 'res': _res(d)})
         ctx.nontrivial.add(('mg', nrep, tuple(map(tuple, groups)), bad))
     return cases
 
